@@ -336,3 +336,14 @@ Definition oracle_c11_strict (acc : list event) (wire_all : bytes) : c11_verdict
   end.
 Definition pieces_of (wire_all : bytes) : list bytes :=
   match dechunk (S (length wire_all)) wire_all with Dechunked ps _ _ => ps end.
+
+(* Known-finding class D17: the history hands an event to a sender whose encoding does not fit the
+   read buffer of [cap] bytes that copy_chunked_async offers to EventReceiver::poll_read
+   (Event::write_to then fails with WriteZero). *)
+Definition oversize_action (cap : nat) (a : caction) : bool :=
+  match a with
+  | Send _ e => (cap <? length (encode_event e))%nat
+  | _ => false
+  end.
+Definition kf_c11_oversize_event (cap : nat) (tr : list caction) : bool :=
+  existsb (oversize_action cap) tr.
